@@ -497,7 +497,7 @@ def hist_observe(rec, keep, case, obj, cur, lenient, after, mode, final):
     """All observers on obj against the reference value of the model cur = (d, ms).
     Returns False after the first violation of this history."""
     d, ms = cur
-    tail = f"/after-{after}/observed-{'every-step' if mode == 'each' else 'at-the-end'}"
+    tail = "/after-" + after  # coarse: the start kind and the observation mode are in the case
     rec.ops += 7
     try:
         fields = (obj.ccsds_days, obj.ms_of_day)
@@ -565,7 +565,7 @@ def run_history(rec: Rec, kind, d, ms, steps, mode, nontrivial=True, keep=None, 
     rec.ops += 1
     if seen_states is not None:
         seen_states.add(cur)
-    after = "start:" + kind
+    after = "start"
     if (mode == "each" or not steps) and not hist_observe(rec, keep, case, obj, cur, lenient, after, mode, not steps):
         return
     for i, sym in enumerate(steps):
